@@ -13,7 +13,7 @@
 (*            the `distance` attribute of every individual                 *)
 (*            (numerator/denominator, -1/1 = never assigned).              *)
 (*  "select": RankSelection(bias).get_index(population of size n) with the *)
-(*            random draw k/K; one Select action per draw.                 *)
+(*            random draw k/K; one Select step = one call with one draw.   *)
 (*                                                                         *)
 (* KnownDeviations names the places where the code as it is departs from   *)
 (* the intended design.  With KnownDeviations = {} every C14 clause must   *)
@@ -92,18 +92,19 @@ CrowdAll ==
   /\ UNCHANGED <<scen, P, useq, pop, coins, fronts, crowded, sel>>
 
 (* RankSelection(p/q).get_index(population of size n) with randomness.next_float() = k/K *)
-Select(k) ==
-  /\ scen = "select" /\ k \in 0..(sel.K - 1)
-  /\ sel' = IF sel.p = sel.q /\ "DivideByBiasMinusOne" \in KnownDeviations
-            THEN [sel EXCEPT !.k = k, !.rt = "ZeroDivisionError", !.idx = -1]
-            ELSE [sel EXCEPT !.k = k, !.rt = "int",
-                             !.idx = SelIndex(sel.n, sel.p, sel.q, k, sel.K)]
+Select ==
+  /\ scen = "select" /\ sel.rt = "none"
+  /\ \E k \in 0..(sel.K - 1) :
+     sel' = IF sel.p = sel.q /\ "DivideByBiasMinusOne" \in KnownDeviations
+               THEN [sel EXCEPT !.k = k, !.rt = "ZeroDivisionError", !.idx = -1]
+               ELSE [sel EXCEPT !.k = k, !.rt = "int",
+                                !.idx = SelIndex(sel.n, sel.p, sel.q, k, sel.K)]
   /\ UNCHANGED <<scen, P, useq, pop, coins, phase, fronts, crowded, dist>>
 
 Next == \/ Rank
         \/ Crowd
         \/ CrowdAll
-        \/ \E k \in 0..(sel.K - 1) : Select(k)
+        \/ Select
 
 Spec == Init /\ [][Next]_vars
 
